@@ -10,15 +10,72 @@
 package main
 
 import (
+	"bytes"
+	crand "crypto/rand"
+	"errors"
 	"fmt"
+	"io"
+	"math/big"
 	"os"
+	"path/filepath"
 
+	"github.com/elastos/Elastos.ELA/account"
+	"github.com/elastos/Elastos.ELA/crypto"
+
+	"verifharness/elaenv"
 	"verifharness/lib"
 	"verifharness/xgraph"
 )
 
+// ---- fault-injecting system random source
+
+// faultySource answers reads with the marker byte 0xA5, at most `chunk` bytes
+// per call (0 = as many as asked), and fails with an error once `failAfter`
+// bytes have been delivered (-1 = never).
+type faultySource struct {
+	chunk     int
+	failAfter int
+	given     int
+}
+
+var errSourceDown = errors.New("system random source unavailable (injected)")
+
+func (f *faultySource) Read(p []byte) (int, error) {
+	if f.failAfter >= 0 && f.given >= f.failAfter {
+		return 0, errSourceDown
+	}
+	n := len(p)
+	if f.chunk > 0 && n > f.chunk {
+		n = f.chunk
+	}
+	if f.failAfter >= 0 && f.given+n > f.failAfter {
+		n = f.failAfter - f.given
+	}
+	for i := 0; i < n; i++ {
+		p[i] = 0xA5
+	}
+	f.given += n
+	return n, nil
+}
+
+func withSource(src io.Reader, f func()) (panicked bool, pv interface{}) {
+	orig := crand.Reader
+	crand.Reader = src
+	defer func() { crand.Reader = orig }()
+	return lib.Recover(f)
+}
+
+type faultMode struct {
+	name      string
+	chunk     int
+	failAfter int
+}
+
+func (m faultMode) fails() bool { return m.failAfter >= 0 }
+
 func main() {
 	run := lib.ParseArgs()
+	elaenv.InitLog(run.Out)
 	st := lib.NewStats("C38", "every function of account, crypto, crypto/ecies, wallet, dpos/account and cmd/wallet/account.go is a source; every function reachable from them in the regenerated call graph is examined for references to math/rand (complete enumeration, nothing sampled). nontrivial = source function with a body; distinct by function name")
 	facts, out, err := xgraph.Extract("c38", run.Repo, run.Out, "C38_uses.v")
 	if err != nil {
@@ -29,7 +86,7 @@ func main() {
 	fmt.Print(out)
 	viol := facts.BadReferences()
 	for _, v := range viol {
-		st.Fail("weak-random:"+v.Func+"->"+v.Bad, "key-material code reaches math/rand: "+v.Source+" ... "+v.Func+" references "+v.Bad+" at "+v.At, v)
+		st.Fail("weak-random:"+v.Func+"->"+v.Bad, "key-material code reaches a weak random source (math/rand, or crypto/rand.Reader.Read without ReadFull): "+v.Source+" ... "+v.Func+" references "+v.Bad+" at "+v.At, v)
 	}
 	badSet := map[int]bool{}
 	for _, b := range facts.Bad {
@@ -68,6 +125,59 @@ func main() {
 			st.Fail("no-secure-source:"+name, "key-generating anchor does not reach crypto/rand at all", map[string]interface{}{"anchor": name})
 		}
 	}
+	// clock rule: path from a key-material function to a clock reader, logging packages cut
+	barrier := map[int]bool{}
+	for _, b := range facts.Barrier {
+		barrier[b] = true
+	}
+	parent := map[int]int{}
+	var queue []int
+	for _, s := range facts.Sources {
+		parent[s] = 0
+		queue = append(queue, s)
+	}
+	for len(queue) > 0 {
+		x := queue[0]
+		queue = queue[1:]
+		if barrier[x] {
+			continue
+		}
+		for _, y := range facts.Succ[x] {
+			if _, ok := parent[y]; !ok {
+				parent[y] = x
+				queue = append(queue, y)
+			}
+		}
+	}
+	for _, c := range facts.Clock {
+		if _, ok := parent[c]; ok {
+			var path []string
+			for n := c; n != 0; n = parent[n] {
+				at := ""
+				if parent[n] != 0 {
+					at = " @" + facts.Sites[fmt.Sprintf("%d,%d", parent[n], n)]
+				}
+				path = append([]string{facts.Name(n) + at}, path...)
+			}
+			st.Fail("clock-source:"+path[len(path)-2], "key-material code reads the clock / process id (a time-derived value on a key path): "+path[0]+" ... "+facts.Name(c), map[string]interface{}{"path": path})
+		}
+		for _, d := range facts.Direct {
+			for _, t := range facts.Succ[d] {
+				if t == c {
+					st.Fail("clock-source:"+facts.Name(d), "wallet key-management command reads the clock / process id", map[string]interface{}{"func": facts.Name(d), "at": facts.Sites[fmt.Sprintf("%d,%d", d, t)]})
+				}
+			}
+		}
+	}
+	// swallowed errors of the secure source
+	for _, rs := range facts.RandErr {
+		st.Count("randerr:"+rs.Func+"->"+rs.Callee+"@"+rs.At, true, "rand-error-site:"+rs.Kind)
+		if rs.Kind == "ignored" || rs.Kind == "checked-continues" {
+			st.Fail("rand-error-"+rs.Kind+":"+rs.Func, "on a key path the error of a call that draws from crypto/rand is "+map[string]string{"ignored": "ignored", "checked-continues": "checked, but the error branch continues into the normal path (fallback)"}[rs.Kind]+": "+rs.Func+" calls "+rs.Callee+" at "+rs.At, rs)
+		}
+	}
+	dynamicOracle(run, st)
+
 	st.Extra["graph_nodes"] = len(facts.Names)
 	st.Extra["sources"] = len(facts.Sources)
 	st.Extra["reachable"] = len(reach)
@@ -77,4 +187,96 @@ func main() {
 	st.Sample(map[string]interface{}{"anchors": facts.Anchors, "sources": len(facts.Sources), "reachable": len(reach)})
 	st.Traces = len(facts.Sources)
 	st.Write(run.Out)
+}
+
+// dynamicOracle runs the key-generation entry points with a fault-injecting
+// crypto/rand.Reader. Oracle: whatever the source does, (1) if it reports an
+// error the operation must fail (no key material, no signature), and (2)
+// produced keystore secrets contain only bytes the source delivered (the
+// marker 0xA5), never unfilled ones.
+func dynamicOracle(run *lib.Run, st *lib.Stats) {
+	modes := []faultMode{
+		{"full reads", 0, -1}, {"16 bytes per read", 16, -1}, {"1 byte per read", 1, -1}, {"7 bytes per read", 7, -1}, {"33 bytes per read", 33, -1},
+		{"error at once", 0, 0}, {"error after 1 byte", 0, 1}, {"error after 16 bytes", 0, 16}, {"error after 40 bytes, 16 per read", 16, 40}, {"error after 47 bytes", 0, 47},
+	}
+	// a key made with the real source, for the signing entry points
+	priv, _, err := crypto.GenerateKeyPair()
+	if err != nil {
+		panic(err)
+	}
+	d := new(big.Int).SetBytes(priv)
+	var msg [32]byte
+	copy(msg[:], "C38 fault injection message 0001")
+
+	type entry struct {
+		name string
+		run  func(dir string) (ok bool, detail map[string]interface{})
+	}
+	entries := []entry{
+		{"account.NewClient(create)", func(dir string) (bool, map[string]interface{}) {
+			cl := account.NewClient(filepath.Join(dir, "keystore.dat"), []byte("c38-password"), true)
+			if cl == nil {
+				return false, nil
+			}
+			iv, mk := cl.KeyMaterialVerif()
+			return true, map[string]interface{}{"iv": iv, "masterKey": mk}
+		}},
+		{"account.NewAccount", func(string) (bool, map[string]interface{}) {
+			a, err := account.NewAccount()
+			return err == nil && a != nil, nil
+		}},
+		{"crypto.GenerateKeyPair", func(string) (bool, map[string]interface{}) {
+			p, _, err := crypto.GenerateKeyPair()
+			return err == nil && p != nil, nil
+		}},
+		{"crypto.Sign", func(string) (bool, map[string]interface{}) {
+			sig, err := crypto.Sign(priv, msg[:])
+			return err == nil && sig != nil, nil
+		}},
+		{"crypto.AggregateSignatures", func(string) (bool, map[string]interface{}) {
+			_, err := crypto.AggregateSignatures([]*big.Int{d}, msg)
+			return err == nil, nil
+		}},
+	}
+	for _, e := range entries {
+		for mi, m := range modes {
+			dir := filepath.Join(run.Out, "ks", fmt.Sprintf("%s-%d", e.name[:7], mi))
+			os.MkdirAll(dir, 0o755)
+			src := &faultySource{chunk: m.chunk, failAfter: m.failAfter}
+			var ok bool
+			var detail map[string]interface{}
+			panicked, pv := withSource(src, func() { ok, detail = e.run(dir) })
+			st.Count("fault:"+e.name+":"+m.name, true, "fault-injection:"+e.name)
+			in := map[string]interface{}{"entry": e.name, "source": m.name, "bytes_delivered": src.given}
+			if panicked {
+				// a crash is not weak key material, but creation must fail cleanly
+				in["panic"] = fmt.Sprint(pv)
+				st.Fail("source-fault-panic:"+e.name, "key-generation entry point panics when the system random source misbehaves", in)
+				continue
+			}
+			// (1) the operation succeeded although the source ran dry before the entry
+			// point had everything it asked for
+			if ok && m.fails() && src.given >= m.failAfter {
+				// it consumed everything up to the fault and still succeeded: legitimate only if it needed no more
+				// than failAfter bytes; a source that fails at once (0 bytes) can never legitimately succeed
+				if m.failAfter == 0 {
+					st.Fail("source-error-ignored:"+e.name, "the system random source is unavailable, yet the operation succeeded (key material or nonce not from the secure source)", in)
+				}
+			}
+			// (2) keystore secrets: only delivered bytes
+			if ok && detail != nil {
+				iv, mk := detail["iv"].([]byte), detail["masterKey"].([]byte)
+				want := func(n int) []byte { return bytes.Repeat([]byte{0xA5}, n) }
+				if len(iv) != 16 || len(mk) != 32 || !bytes.Equal(iv, want(16)) || !bytes.Equal(mk, want(32)) {
+					in["iv"], in["masterKey"] = fmt.Sprintf("%x", iv), fmt.Sprintf("%x", mk)
+					st.Fail("unfilled-key-bytes:"+e.name, "keystore creation succeeded but IV / master key contain bytes the random source never delivered", in)
+				}
+			}
+			// any failing source must make keystore creation fail (it needs 48 bytes; all failing modes deliver fewer)
+			if ok && m.fails() && e.name == "account.NewClient(create)" {
+				st.Fail("source-error-ignored:"+e.name, "the system random source failed before 48 bytes were delivered, yet keystore creation succeeded", in)
+			}
+		}
+	}
+	os.RemoveAll(filepath.Join(run.Out, "ks"))
 }
